@@ -406,6 +406,42 @@ let handle (x : sx) : ostring =
        | Some (((outs, prev), rs), started) ->
            "ONLWIN " ^ OS.concat " ; " (List.map show_l outs) ^ " | PREV " ^ OS.concat " " (List.map show_p prev)
            ^ " | RS " ^ (match rs with RNegInf -> "-inf" | RPosInf -> "inf" | RFin z -> string_of_int (int_of_z z)) ^ " | STARTED " ^ show_bool started)
+  | L [A "unitslift"; skip; du; L [pn; pd]; pu; L cs; u] ->
+      (* (unitslift SKIP DU (PN PD) PU ((name N D)|(name none) ...) U): numbers are decimal texts of any size *)
+      let unit_of = function "s" -> US | "ms" -> UMS | "us" -> UUS | "ns" -> UNS | s -> failwith ("unit " ^ s) in
+      let ounit_of = function "_" -> None | s -> Some (unit_of s) in
+      let q_of n d = ul_q (coq_string (atom n)) (coq_string (atom d)) in
+      let end_of = function
+        | L [A "lit"; n; d] -> ULit (q_of n d)
+        | L [A "id"; nm] -> UId (coq_string (atom nm))
+        | _ -> failwith "bound end" in
+      let bound_of = function
+        | L [b; bu; e; eu] -> { u_b = end_of b; u_bu = ounit_of (atom bu); u_e = end_of e; u_eu = ounit_of (atom eu) }
+        | _ -> failwith "bound" in
+      let op1_of = function
+        | "not" -> ONot | "rise" -> ORise | "fall" -> OFall | "prev" -> OPrev | "sprev" -> OSPrev | "next" -> ONext | "snext" -> OSNext
+        | "once" -> OOnce | "hist" -> OHist | "ev" -> OEv | "alw" -> OAlw | s -> OA1 (aop1_of s) in
+      let op2_of = function
+        | "and" -> OAnd | "or" -> OOr | "implies" -> OImplies | "iff" -> OIff | "xor" -> OXor | "since" -> OSince | "until" -> OUntil
+        | s -> OA2 (aop2_of s) in
+      let top1_of = function "oncet" -> TOnce | "histt" -> THist | "evt" -> TEv | "alwt" -> TAlw | s -> failwith ("top1 " ^ s) in
+      let top2_of = function "sincet" -> TSince | "untilt" -> TUntil | "precedes" -> TPrecedes | s -> failwith ("top2 " ^ s) in
+      let rec uf = function
+        | L [A "var"; i] -> BVar (nat_of_sx i)
+        | L [A "const"; c] -> BConst (v_of_sx c)
+        | L [A "pred"; c; f; g] -> BBin (OPred (cmp_of (atom c)), uf f, uf g)
+        | L [A "un"; o; f] -> BUn (op1_of (atom o), uf f)
+        | L [A "bin"; o; f; g] -> BBin (op2_of (atom o), uf f, uf g)
+        | L [A "unt"; o; b; f] -> BUnT (top1_of (atom o), bound_of b, uf f)
+        | L [A "bint"; o; b; f; g] -> BBinT (top2_of (atom o), bound_of b, uf f, uf g)
+        | L [A "unless"; b; f; g] -> run_unless (bound_of b) (uf f) (uf g)
+        | _ -> failwith "uformula" in
+      let ce = List.map (function
+        | L [nm; A "none"] -> (coq_string (atom nm), None)
+        | L [nm; n; d] -> (coq_string (atom nm), Some (q_of n d))
+        | _ -> failwith "const") cs in
+      let st = { s_du = unit_of (atom du); s_p = q_of pn pd; s_pu = unit_of (atom pu) } in
+      ocaml_string (run_unitslift (atom skip = "1") st ce (uf u))
   | L [A "info"; f] ->
       let f = formula_of_sx f in
       Printf.sprintf "HOR %d | BF %s | PAST %s | ISBOOL %s" (int_of_nat (run_hor f)) (show_bool (run_bounded_future f))
